@@ -368,13 +368,6 @@ def _f09(failure):
         io.DEFAULT_BUFFER_SIZE = saved
 
 
-def _f10(failure):
-    """A length field larger than the reader can allocate: MemoryError / OverflowError of the underlying read()
-    escapes for file-like substrates where bytes / BytesIO input reports insufficient data."""
-    if failure['sub'].startswith('wrapper'):
-        return False
-    got, base = (failure['sig'].split('/') + [''])[:2]
-    return got in ('MemoryError', 'OverflowError') and base in ('underrun', 'PyAsn1Error', 'MemoryError', 'OverflowError')
 
 
-FINDINGS = {'F09-wrapper-renumbering': _f09, 'F10-huge-length-read': _f10}
+FINDINGS = {'F09-wrapper-renumbering': _f09}
